@@ -192,5 +192,25 @@ func RemoveAll(repo repository.ClockedRepo) error {
 			return err
 		}
 	}
+
+	// also clean the remote-tracking refs of identities that are not (or no longer) local,
+	// for example fetched but never merged
+	remotes, err := repo.GetRemotes()
+	if err != nil {
+		return err
+	}
+	for remote := range remotes {
+		refs, err := repo.ListRefs(fmt.Sprintf(identityRemoteRefPattern, remote))
+		if err != nil {
+			return err
+		}
+		for _, ref := range refs {
+			err = repo.RemoveRef(ref)
+			if err != nil {
+				return err
+			}
+		}
+	}
+
 	return nil
 }
